@@ -116,8 +116,10 @@ def decision_table(ctx):
     res.floor('R-TABLE.shortcut operations', sum(len(v) for v in ops.values()), 5)
 
 
-def name_maps(ctx):
-    sm, sc, res = ctx.sm, ctx.schema, ctx.res
+def membership_gate(ctx):
+    """The class lookup of the child shortcut only ever sees names of the element's own possible children (also the reason no
+    NameError / IndexError can come out of the name arithmetic: C19)."""
+    sm, res = ctx.sm, ctx.res
     res.rule('R-TAB.shortcut-names', "xml_ + underscore form <-> element name is a bijection on the element names and agrees with the class naming rule")
     f = sm.func('XMLElement', '_convert_attribute_to_child', T.M_XMLELEMENT)
     g = cfg_of(f.node)
@@ -125,12 +127,21 @@ def name_maps(ctx):
     gates = [n for n in g.stmt_nodes() if n.kind == 'test' and isinstance(n.ast, ast.Compare) and isinstance(n.ast.ops[0], ast.NotIn) and
              unparse(n.ast.comparators[0]) == 'self.possible_children_names' and dom.branch_raises(g, n, 'T')]
     ok = bool(evals) and bool(gates) and all(g.path_avoiding(g.entry, e, avoid=gates) is None for e in evals)
+    # every computation on the name parts (cap_first indexes [0]) also sits behind the gate
+    caps = dom.nodes_calling(g, lambda c: isinstance(c.func, ast.Name) and c.func.id in ('cap_first', 'convert_to_xml_class_name'))
+    ok = ok and all(g.path_avoiding(g.entry, c, avoid=gates) is None for c in caps)
     res.check(ok, 'R-TAB.shortcut-names', f.fq, "the class lookup (eval) is dominated by `<hyphenated name> not in self.possible_children_names -> raise NameError`: "
               "only names of the element's own possible children are ever turned into classes", key='R-TAB.shortcut-names|membership-gate')
     for gt in gates:
         left = unparse(gt.ast.left)
         res.check(left.startswith("'-'.join(") and ".split('_')" in left, 'R-TAB.shortcut-names', f.fq, "membership is tested on the name with _ mapped to -",
                   fail_detail=left, key='R-TAB.shortcut-names|membership-form')
+
+
+def name_maps(ctx):
+    sm, sc, res = ctx.sm, ctx.schema, ctx.res
+    res.rule('R-TAB.shortcut-names', "xml_ + underscore form <-> element name is a bijection on the element names and agrees with the class naming rule")
+    membership_gate(ctx)
     names = sc.partwise_names()
     seen = {}
     for n in names:
